@@ -1,5 +1,7 @@
 import Mqtt5V.Basic
 import Mqtt5V.Model.ReasonCode
+import Mqtt5V.Model.PidAlloc
+import Mqtt5V.Model.Mutex
 /-! `mdrv`: the model behind a one-line-in / one-line-out protocol (DESIGN.md Appendix B).
 Imports Model/Spec/Gen only (no Mathlib, so it links as a native executable). -/
 open Mqtt5V
@@ -21,15 +23,82 @@ def pureStep (ws : List String) : String :=
         String.join ((Gen.ReasonCodes.table c).map fun v => s!" {v}"))
   | _ => "bad-op"
 
-partial def loop (h : IO.FS.Stream) (out : IO.FS.Stream) : IO Unit := do
+/-- state of the stateful engines -/
+structure DState where
+  pid : Model.PidAlloc.Sys := Model.PidAlloc.Sys.init
+  mtx : Model.Mutex.M := {}
+  mtxSlots : List Nat := []
+
+def allocN : Nat → Model.PidAlloc.Sys → Nat → Model.PidAlloc.Sys × Nat
+  | 0, s, last => (s, last)
+  | n + 1, s, _ =>
+    let r := s.step .alloc
+    allocN n r.1 (r.2.getD 0)
+
+def pidStep (s : Model.PidAlloc.Sys) (ws : List String) : Model.PidAlloc.Sys × String :=
+  let show_ (id : String) (t : Model.PidAlloc.Sys) := s!"{id} | {Model.PidAlloc.render t.st}"
+  match ws with
+  | ["reset"] => (Model.PidAlloc.Sys.init, show_ "-" Model.PidAlloc.Sys.init)
+  | ["a"] => let r := s.step .alloc; (r.1, show_ (toString (r.2.getD 0)) r.1)
+  | ["f", n] =>
+    match n.toNat? with
+    | some k => let r := s.step (.free k); (r.1, show_ "-" r.1)
+    | none => (s, "bad-op")
+  | ["an", n] =>
+    match n.toNat? with
+    | some k => let r := allocN k s 0; (r.1, show_ (toString r.2) r.1)
+    | none => (s, "bad-op")
+  | _ => (s, "bad-op")
+
+def mtxDrain : Nat → Model.Mutex.M → List Model.Mutex.Ev → Model.Mutex.M × List Model.Mutex.Ev
+  | 0, m, acc => (m, acc)
+  | n + 1, m, acc =>
+    if m.posted.isEmpty then (m, acc) else
+    let r := m.step .run1
+    mtxDrain n r.1 (acc ++ r.2)
+
+def mtxStep (st : DState) (ws : List String) : DState × String :=
+  let fin (m : Model.Mutex.M) (evs : List Model.Mutex.Ev) (slots : List Nat) : DState × String :=
+    ({ st with mtx := m, mtxSlots := slots }, s!"{Model.Mutex.renderEvs evs} locked={if m.locked then 1 else 0}")
+  let m := st.mtx
+  match ws with
+  | ["new"] => fin {} [] []
+  | ["lock", w, slot] =>
+    match w.toNat? with
+    | some w => let r := m.step (.lock w); fin r.1 r.2 (if slot = "1" then w :: st.mtxSlots else st.mtxSlots)
+    | none => (st, "bad-op")
+  | ["unlock"] => let r := m.step .unlock; fin r.1 r.2 st.mtxSlots
+  | ["cancel", w, ty, inside] =>
+    match w.toNat? with
+    | some w =>
+      if ty = "none" || !(st.mtxSlots.contains w) then
+        -- a signal of type none (or a waiter without a slot) does nothing; an `inside` emission still occupies one executor task
+        if inside = "1" && st.mtxSlots.contains w then fin { m with posted := m.posted ++ [.emit 0] } [] st.mtxSlots
+        else fin m [] st.mtxSlots
+      else let r := m.step (.cancelOne w (inside = "1")); fin r.1 r.2 st.mtxSlots
+    | none => (st, "bad-op")
+  | ["cancelall"] => let r := m.step .cancelAll; fin r.1 r.2 st.mtxSlots
+  | ["destroy"] => let r := m.step .cancelAll; fin { r.1 with locked := false } r.2 st.mtxSlots
+  | ["run1"] => let r := m.step .run1; fin r.1 r.2 st.mtxSlots
+  | ["drain"] => let r := mtxDrain (m.posted.length + 1) m []; fin r.1 r.2 st.mtxSlots
+  | _ => (st, "bad-op")
+
+def step (st : DState) (ws : List String) : DState × String :=
+  match ws with
+  | "mtx" :: rest => mtxStep st rest
+  | "pid" :: rest => let r := pidStep st.pid rest; ({ st with pid := r.1 }, r.2)
+  | _ => (st, pureStep ws)
+
+partial def loop (h : IO.FS.Stream) (out : IO.FS.Stream) (st : DState) : IO Unit := do
   let line ← h.getLine
   if line.isEmpty then return ()
-  out.putStrLn (pureStep (words line))
-  loop h out
+  let (st', o) := step st (words line)
+  out.putStrLn o
+  loop h out st'
 
 end Driver
 
 def main (_args : List String) : IO Unit := do
   let stdin ← IO.getStdin
   let stdout ← IO.getStdout
-  Driver.loop stdin stdout
+  Driver.loop stdin stdout {}
